@@ -10,7 +10,8 @@ from .. import pgen
 from .. import recipe as R
 from ..common import pages_label, run_recipe
 from ..engine import Result
-from ..pagemodel import COORD, group_values
+from .. import findings as findings_mod
+from ..pagemodel import COORD, group_values, row_weight
 from ..model import classify
 
 ID = "C05"
@@ -101,6 +102,29 @@ def check(case) -> Result:
     levels = len(R.as_list(body.get("page_by")))
     spanning = R.spanning(body)
     pages = classify(out.doc)
+    # physical stranding: a heading that ends within the nrow lines of a page while the row it introduces does not
+    # (each table row weighted by an independent lower bound on its lines); the open auto-header finding of C03
+    # shifts every line by one and is allowed for
+    nrow = case["page"]["nrow"]
+    slack = 1 if any(f.sig == "budget/auto_header_unreserved" for f in findings_mod.load("C03")) else 0
+    for pn, items in enumerate(pages):
+        line = 0
+        auto = 0
+        prev_heading_end = None
+        for it in items:
+            if it.role in ("header", "heading", "data", "fnrow", "srcrow"):
+                w = row_weight(it.block)
+                if it.role == "header" and it.texts and it.texts[0].startswith("@N"):
+                    auto += 1
+                line += w
+            elif it.role == "sublinehead":
+                line += 1
+            else:
+                continue
+            budget = nrow + (auto if slack else 0)
+            if it.role == "data" and prev_heading_end is not None and prev_heading_end <= budget < line and sum(1 for x in items if x.role == "data") >= 2:
+                res.fail("stranded", "heading_on_last_line_row_beyond_nrow", f"page {pn + 1}: heading ends on line {prev_heading_end}, its row on line {line}, nrow {nrow}")
+            prev_heading_end = line if it.role == "heading" else None
     seen_rows = 0
     continued = inner_change = False
     prev_last = None
